@@ -486,6 +486,9 @@ fn judge17(scen_seed: u64, r: &RunResult) -> Result<u64, (String, String)> {
     if miri_unsupported(r) {
         return Err((INCONCLUSIVE.into(), "Miri does not support a host call this build makes".into()));
     }
+    if never_started(r) {
+        return Err((INCONCLUSIVE.into(), "the program never started under Miri (build or toolchain failure)".into()));
+    }
     if r.status != 0 {
         let err_text = String::from_utf8_lossy(&r.err).to_string();
         let class = if err_text.contains("Undefined Behavior") || err_text.contains("Data race") { "miri-undefined-behaviour" } else { "child-failed" };
@@ -575,6 +578,9 @@ fn child09(scen_seed: u64) -> i32 {
 fn judge09(_scen_seed: u64, r: &RunResult) -> Result<u64, (String, String)> {
     if miri_unsupported(r) {
         return Err((INCONCLUSIVE.into(), "Miri does not support a host call this build makes".into()));
+    }
+    if never_started(r) {
+        return Err((INCONCLUSIVE.into(), "the program never started under Miri (build or toolchain failure)".into()));
     }
     let err_text = String::from_utf8_lossy(&r.err).to_string();
     if r.status == 3 || err_text.contains("#DECISION-VIOLATION") {
@@ -670,6 +676,9 @@ struct RunResult {
     status: i32,
     out: Vec<u8>,
     err: Vec<u8>,
+    /// the program under test printed its first line (false: cargo/rustc/Miri failed before it
+    /// ran - a toolchain or build problem, which decides nothing about the property)
+    started: bool,
 }
 
 fn miri_run(miri_seed: u64, rate: &str, scen_seed: u64) -> std::io::Result<RunResult> {
@@ -688,7 +697,8 @@ fn miri_run_role(role: &str, miri_seed: u64, rate: &str, scen_seed: u64) -> std:
         .env_remove("RUSTFLAGS")
         .stdin(Stdio::null())
         .output()?;
-    Ok(RunResult { status: o.status.code().unwrap_or(-1), out: o.stdout, err: strip_tool_noise(o.stderr) })
+    let started = o.stderr.windows(BEGIN_MARKER.len()).any(|w| w == BEGIN_MARKER);
+    Ok(RunResult { status: o.status.code().unwrap_or(-1), out: o.stdout, err: strip_tool_noise(o.stderr), started })
 }
 
 /// cargo and rustc share the child's stderr.  Drop the lines only they can produce (they start at
@@ -726,7 +736,8 @@ fn strip_tool_noise(err: Vec<u8>) -> Vec<u8> {
 
 fn native_run(scen_seed: u64) -> std::io::Result<RunResult> {
     let o = Command::new(std::env::current_exe()?).args(["child", &scen_seed.to_string()]).stdin(Stdio::null()).output()?;
-    Ok(RunResult { status: o.status.code().unwrap_or(-1), out: o.stdout, err: strip_tool_noise(o.stderr) })
+    let started = o.stderr.windows(BEGIN_MARKER.len()).any(|w| w == BEGIN_MARKER);
+    Ok(RunResult { status: o.status.code().unwrap_or(-1), out: o.stdout, err: strip_tool_noise(o.stderr), started })
 }
 
 fn json_str(s: &str) -> String {
@@ -767,12 +778,21 @@ fn miri_unsupported(r: &RunResult) -> bool {
     r.status != 0 && String::from_utf8_lossy(&r.err).contains("error: unsupported operation")
 }
 
+/// cargo, rustc or Miri failed before the program printed its first line.
+fn never_started(r: &RunResult) -> bool {
+    r.status != 0 && !r.started
+}
+
 const INCONCLUSIVE: &str = "inconclusive";
 
 /// Judge one Miri execution.  Ok(order hash) or Err((class, detail)).
 fn judge(sc: &Scenario, r: &RunResult) -> Result<u64, (String, String)> {
     if miri_unsupported(r) {
         return Err((INCONCLUSIVE.into(), "Miri does not support a host call this build makes".into()));
+    }
+    if never_started(r) {
+        let tail: String = String::from_utf8_lossy(&r.err).chars().rev().take(600).collect::<String>().chars().rev().collect();
+        return Err(("harness".into(), format!("the program never started under Miri (build or toolchain failure): {tail}")));
     }
     let err_text = String::from_utf8_lossy(&r.err).to_string();
     if r.status == 3 || err_text.contains("#REGISTER-VIOLATION") {
